@@ -123,6 +123,9 @@ func runOne(id string, seed int, onlyKey string, t0 time.Time) int {
 		_ = i
 	}
 	last.Config = strings.Join(cfgNames, ",")
+	if (*flagTier == "thorough" || *flagSelftest) && onlyKey == "" {
+		selfValidate(last, id, *flagRepo, *flagVerifD)
+	}
 	if r := last.finish(*flagVerifD, t0, seed, onlyKey); r > rc {
 		rc = r
 	}
